@@ -12,11 +12,11 @@ from __future__ import annotations
 import itertools
 from fractions import Fraction
 
-from ..core import Infra, Prop, Violation, import_repo, run_model
+from ..core import Infra, LEAN, REPO, Prop, Violation, import_repo, run_model, write_if_changed
+from ..extract import e5_metabolism
 
 CURS = ["atp", "gtp", "nadh"]
 RATES = [(1, 10), (1, 10), (1, 4), (1, 2), (1, 1), (0, 1), (2, 1), (1, 8)]
-THRESH = [Fraction(1, 10), Fraction(3, 10), Fraction(9, 10)]
 INFLOW = ("regen", "rst")
 STATES = ["normal", "conserving", "starving", "feasting", "dormant"]
 EXC = [RuntimeError, ValueError, KeyError]
@@ -52,6 +52,7 @@ class C04(Prop):
     id = "C04"
     title = "Energy ledger: no overdraft, exact charging, free failures, bounded total spend"
     fixed_prefix = 2
+    extractors = ["E5-metabolism"]
     quick_budget = 4000
     thorough_budget = 60000
     quick_deadline_s = 120
@@ -96,6 +97,12 @@ class C04(Prop):
         if not self.rates:
             raise Infra("no interest rate on which float and exact arithmetic agree")
 
+    def extract(self, ctx):
+        r = e5_metabolism.run(REPO, LEAN, write_if_changed)
+        w = e5_metabolism.extract_facts(REPO).get("debtWeight")
+        self.debt_weight = float(w) if not isinstance(w, e5_metabolism.Unrecognised) else 0.5
+        return [r]
+
     def _ensure_fcheck(self):
         """Lean Float vs Python float on the classifier: same threshold doubles, same verdict on a grid that
         contains exact-boundary and rounding-sensitive points.  A mismatch is NOT an alarm: it switches the
@@ -122,27 +129,29 @@ class C04(Prop):
                 self.float_ok = False
                 return
 
-    @staticmethod
-    def _float_state(cur, cap, debt):
-        """the classification formula on Python floats (harness-side copy, used only for the Float self-check)"""
+    def _float_state(self, cur, cap, debt):
+        """the classification formula on Python floats with the constants of the tree under test (harness-side copy,
+        used only for the Float self-check of the driver)"""
+        A = self.m.ATP_Store
         ratio = 0.0 if cap == 0 else cur / cap
         if debt > 0 and cap > 0:
-            ratio -= (debt / cap) * 0.5
-        if ratio <= 0.1:
+            ratio -= (debt / cap) * getattr(self, "debt_weight", 0.5)
+        if ratio <= A.STARVING_THRESHOLD:
             return "starving"
-        if ratio <= 0.3:
+        if ratio <= A.CONSERVING_THRESHOLD:
             return "conserving"
-        if ratio >= 0.9:
+        if ratio >= A.FEASTING_THRESHOLD:
             return "feasting"
         return "normal"
 
-    @staticmethod
-    def _float_sensitive(s) -> bool:
+    def _float_sensitive(self, s) -> bool:
         cap = s.max_atp + s.max_gtp
         if cap <= 0:
             return False
-        r = Fraction(s.atp + s.gtp, cap) - Fraction(max(s.get_debt(), 0), 2 * cap)
-        return any(abs(r - t) < Fraction(1, 10 ** 9) for t in THRESH)
+        r = Fraction(s.atp + s.gtp, cap) - Fraction(max(s.get_debt(), 0), cap) * Fraction(repr(getattr(self, "debt_weight", 0.5)))
+        A = self.m.ATP_Store
+        ths = [Fraction(repr(x)) for x in (A.STARVING_THRESHOLD, A.CONSERVING_THRESHOLD, A.FEASTING_THRESHOLD)]
+        return any(abs(r - t) < Fraction(1, 10 ** 9) for t in ths)
 
     # --- generation ---------------------------------------------------------------------------------------
     def _new_line(self, rng, big=False):
